@@ -88,7 +88,20 @@ pub(crate) enum ActOp {
     CurrencyPairs { add: bool, pair: u8 },
     /// kind: 0 create, 1 remove, 2 update
     Markets { kind: u8, pair: u8, decimals: u8 },
-    Ics20Withdrawal { asset: u8, amt: Amt, channel: u8, fee_asset: u8, bridge: Option<u8>, event: u8 },
+    Ics20Withdrawal {
+        asset: u8,
+        amt: Amt,
+        channel: u8,
+        fee_asset: u8,
+        bridge: Option<u8>,
+        event: u8,
+        /// account named as the return address (None: the signer)
+        #[serde(default)]
+        ret: Option<u8>,
+        /// carry a rollup-withdrawal shaped memo even without `bridge`
+        #[serde(default)]
+        rollup_memo: bool,
+    },
 }
 
 #[derive(Serialize, Deserialize, Clone, Debug, PartialEq, Eq)]
@@ -446,7 +459,11 @@ fn gen_tx(rng: &mut Rng, w: &Weights, cfg: &Config, gw: &mut GenWorld, id: u32, 
                         channel: rng.below(2) as u8,
                         fee_asset,
                         bridge: None,
-                        event: 0,
+                        event: rng.below(40) as u8,
+                        // anybody may name a bridge account as the return address of a transfer
+                        // whose memo looks like a rollup withdrawal: a refund then is a deposit
+                        ret: if !gw.bridges.is_empty() && rng.chance(1, 7) { Some(gw.some_bridge(rng, na)) } else { None },
+                        rollup_memo: rng.chance(1, 6),
                     },
                     _ => {
                         let to = gw.some_bridge(rng, na);
@@ -530,7 +547,21 @@ fn gen_tx(rng: &mut Rng, w: &Weights, cfg: &Config, gw: &mut GenWorld, id: u32, 
                                 };
                                 ActOp::BridgeTransfer { bridge, to, amt: gen_amt(rng), fee_asset, event }
                             }
-                            _ => ActOp::Ics20Withdrawal { asset: b_asset, amt: gen_amt(rng), channel: rng.below(2) as u8, fee_asset, bridge: Some(bridge), event },
+                            _ => ActOp::Ics20Withdrawal {
+                                // now and then an asset the bridge merely holds (sent to it by a plain Transfer)
+                                asset: if rng.chance(1, 6) { rng.below(u64::from(N_ASSETS)) as u8 } else { b_asset },
+                                amt: gen_amt(rng),
+                                channel: rng.below(2) as u8,
+                                fee_asset,
+                                bridge: Some(bridge),
+                                event,
+                                ret: match rng.weighted(&[60, 30, 10]) {
+                                    0 => Some(bridge),
+                                    1 => None,
+                                    _ => Some(gw.some_bridge(rng, na)),
+                                },
+                                rollup_memo: true,
+                            },
                         };
                         actions.push(a);
                     }
@@ -726,7 +757,7 @@ fn gen_event_reuse_recipe(rng: &mut Rng, cfg: &Config, gw: &mut GenWorld, next_i
         let a = match k {
             0 => ActOp::BridgeUnlock { bridge, to: rng.below(u64::from(na)) as u8, amt: Amt::PerMille(100), fee_asset, event },
             1 => ActOp::BridgeTransfer { bridge, to: bridge2.unwrap_or(bridge), amt: Amt::PerMille(100), fee_asset, event },
-            _ => ActOp::Ics20Withdrawal { asset, amt: Amt::PerMille(100), channel: rng.below(2) as u8, fee_asset, bridge: Some(bridge), event },
+            _ => ActOp::Ics20Withdrawal { asset, amt: Amt::PerMille(100), channel: rng.below(2) as u8, fee_asset, bridge: Some(bridge), event, ret: Some(bridge), rollup_memo: true },
         };
         out.push(tx(id(), withdrawer, vec![a]));
         out.push(block(id(), rng));
@@ -771,6 +802,127 @@ fn gen_stale_mempool_recipe(rng: &mut Rng, cfg: &Config, gw: &mut GenWorld, next
     out.push(block(id(), rng));
     out.push(tx(id(), NonceSel::Next, rng.range(1, 9) as u32)); // add K again: fills the gap
     out.push(block(id(), rng));
+    out.push(block(id(), rng));
+    out
+}
+
+/// A scripted mini-history for "a transaction that fails after a BridgeLock, in a block that
+/// already has a deposit": the withdrawer of a funded bridge queues two transactions that carry the
+/// same withdrawal event id, each preceded by a BridgeLock. Both pass CheckTx (the id is unused in
+/// the committed state); when the proposer executes them in order the second one fails at its
+/// second action, after its lock has run, and has to leave nothing behind.
+fn gen_ghost_deposit_recipe(rng: &mut Rng, cfg: &Config, gw: &mut GenWorld, next_id: &mut u32, profile: &str) -> Vec<Op> {
+    let na = cfg.n_accounts;
+    let mut out = Vec::new();
+    let asset: u8 = 0;
+    let Some(funder) = (0..na).find(|a| cfg.balances.get(*a as usize).copied().unwrap_or(0) > 1_000_000 && !gw.bridges.contains_key(a)) else { return out };
+    let Some(bridge) = (0..na).find(|a| *a != funder && !gw.bridges.contains_key(a) && cfg.balances.get(*a as usize).copied().unwrap_or(0) > 10_000) else { return out };
+    let fee_asset = cfg.fee_assets[0];
+    let mut id = || {
+        let i = *next_id;
+        *next_id += 1;
+        i
+    };
+    let tx = |id: u32, signer: u8, actions: Vec<ActOp>| Op::Tx(TxOp { id, signer, nonce: NonceSel::Next, actions, nodes: 0xff, dup: false, replay_of: None });
+    let block = |id: u32, rng: &mut Rng| {
+        Op::Block(BlockOp {
+            id,
+            dt_ms: rng.range(1, 999) as u32,
+            max_tx_bytes: 1_048_576,
+            rounds: vec![RoundOp { proposer: rng.below(8) as u8, prepare: true, process: 0xff, byz: None }],
+            crash: None,
+            late: if rng.chance(1, 3) { 1 << rng.below(3) } else { 0 },
+            votes: gen_votes(rng, cfg, profile),
+            verify_on: rng.below(8) as u8,
+        })
+    };
+    out.push(tx(id(), bridge, vec![ActOp::InitBridge { rollup: rng.below(u64::from(N_ROLLUPS)) as u8, asset, fee_asset, sudo: None, withdrawer: Some(funder) }]));
+    gw.bridges.insert(bridge, (asset, bridge, funder));
+    out.push(block(id(), rng));
+    out.push(tx(id(), funder, vec![ActOp::BridgeLock { to: bridge, asset, amt: Amt::PerMille(100), fee_asset, dest_len: 8 }]));
+    out.push(block(id(), rng));
+    let event = rng.range(60, 80) as u8;
+    gw.used_events.push((bridge, event));
+    let to = rng.below(u64::from(na)) as u8;
+    for _ in 0..2 {
+        let second = match rng.weighted(&[60, 40]) {
+            0 => ActOp::BridgeUnlock { bridge, to, amt: Amt::Abs(rng.range(1, 500) as u128), fee_asset, event },
+            _ => ActOp::BridgeTransfer { bridge, to: bridge, amt: Amt::Abs(rng.range(1, 500) as u128), fee_asset, event },
+        };
+        out.push(tx(id(), funder, vec![ActOp::BridgeLock { to: bridge, asset, amt: Amt::Abs(rng.range(1, 2000) as u128), fee_asset, dest_len: rng.range(1, 30) as u8 }, second]));
+    }
+    out.push(block(id(), rng));
+    out.push(block(id(), rng));
+    out
+}
+
+/// A scripted mini-history for "a failed outgoing transfer is refunded to a bridge account in an
+/// asset the bridge does not bridge": the bridge (asset A) is sent asset B by a plain Transfer, B
+/// leaves over IBC with the bridge as return address and a rollup-withdrawal memo (from the bridge
+/// through its withdrawer, or from a plain account - nothing ties the return address to the
+/// signer), and the packet then fails (error acknowledgement or timeout).
+fn gen_bridge_refund_recipe(rng: &mut Rng, cfg: &Config, gw: &mut GenWorld, next_id: &mut u32, profile: &str) -> Vec<Op> {
+    let na = cfg.n_accounts;
+    let mut out = Vec::new();
+    let (a, b): (u8, u8) = if rng.chance(1, 2) { (2, 0) } else { (0, 2) };
+    let holder = |asset: u8| {
+        if asset == 0 {
+            (0..na).find(|x| cfg.balances.get(*x as usize).copied().unwrap_or(0) > 1_000_000)
+        } else {
+            cfg.extra.iter().find(|(_, x, _)| *x == asset).map(|(acct, _, _)| *acct)
+        }
+    };
+    let Some(funder) = holder(b) else { return out };
+    let Some(bridge) = (0..na).find(|x| *x != funder && !gw.bridges.contains_key(x) && cfg.balances.get(*x as usize).copied().unwrap_or(0) > 10_000) else { return out };
+    let fee_asset = cfg.fee_assets[0];
+    let mut id = || {
+        let i = *next_id;
+        *next_id += 1;
+        i
+    };
+    let tx = |id: u32, signer: u8, actions: Vec<ActOp>| Op::Tx(TxOp { id, signer, nonce: NonceSel::Next, actions, nodes: 0xff, dup: false, replay_of: None });
+    let block = |id: u32, rng: &mut Rng| {
+        Op::Block(BlockOp {
+            id,
+            dt_ms: rng.range(1, 999) as u32,
+            max_tx_bytes: 1_048_576,
+            rounds: vec![RoundOp { proposer: rng.below(8) as u8, prepare: true, process: 0xff, byz: None }],
+            crash: None,
+            late: 0,
+            votes: gen_votes(rng, cfg, profile),
+            verify_on: rng.below(8) as u8,
+        })
+    };
+    let from_bridge = rng.chance(1, 2);
+    out.push(tx(id(), bridge, vec![ActOp::InitBridge { rollup: rng.below(u64::from(N_ROLLUPS)) as u8, asset: a, fee_asset, sudo: None, withdrawer: Some(funder) }]));
+    gw.bridges.insert(bridge, (a, bridge, funder));
+    out.push(tx(id(), funder, vec![ActOp::Transfer { to: bridge, asset: b, amt: Amt::PerMille(200), fee_asset }]));
+    out.push(block(id(), rng));
+    let event = rng.range(80, 100) as u8;
+    out.push(tx(
+        id(),
+        funder,
+        vec![ActOp::Ics20Withdrawal {
+            asset: b,
+            amt: Amt::PerMille(400),
+            channel: rng.below(2) as u8,
+            fee_asset,
+            bridge: if from_bridge { Some(bridge) } else { None },
+            event,
+            ret: Some(bridge),
+            rollup_memo: true,
+        }],
+    ));
+    out.push(block(id(), rng));
+    if gw.relayers.is_empty() {
+        let who = rng.below(u64::from(na)) as u8;
+        out.push(tx(id(), gw.ibc_sudo, vec![ActOp::RelayerChange { add: true, who }]));
+        gw.relayers.push(who);
+        out.push(block(id(), rng));
+    }
+    let relayer = *rng.pick(&gw.relayers);
+    let kind = if rng.chance(1, 2) { IbcKind::Ack { of: 0, success: false } } else { IbcKind::Timeout { of: 0 } };
+    out.push(Op::Ibc(IbcOp { id: id(), relayer, nonce: NonceSel::Next, kind, nodes: 0xff, pre: vec![] }));
     out.push(block(id(), rng));
     out
 }
@@ -981,6 +1133,27 @@ pub(crate) fn generate(profile: &str, tier: &str, seed: u64) -> Scenario {
     let mut next_id = 0u32;
     let mut tx_ids: Vec<u32> = Vec::new();
     let mut gw = GenWorld::new(&cfg);
+    // recipes fork the generator's PRNG so that adding one does not shift the rest of the scenario
+    if matches!(profile, "ledger" | "ibc" | "mixed") {
+        let mut r = rng.fork(0x7265_6675_6e64);
+        if r.chance(1, 3) {
+            // first, so that its packet is the first one this chain sends (`of: 0`)
+            let recipe = gen_bridge_refund_recipe(&mut r, &cfg, &mut gw, &mut next_id, profile);
+            ops.extend(recipe);
+        }
+    }
+    if matches!(profile, "ledger" | "atomic" | "paths" | "proposal" | "mixed") {
+        let mut r = rng.fork(0x6768_6f73_74);
+        if r.chance(1, 4) {
+            let recipe = gen_ghost_deposit_recipe(&mut r, &cfg, &mut gw, &mut next_id, profile);
+            for op in &recipe {
+                if let Op::Tx(t) = op {
+                    tx_ids.push(t.id);
+                }
+            }
+            ops.extend(recipe);
+        }
+    }
     if matches!(profile, "ledger" | "ibc" | "mixed" | "atomic") && rng.chance(2, 5) {
         let recipe = gen_event_reuse_recipe(&mut rng, &cfg, &mut gw, &mut next_id, profile);
         for op in &recipe {
